@@ -7,6 +7,7 @@
     0  a Uniswap v3 LP market (any pool)                — `Demeter.Uni.State`, operations `Demeter.Uni.step`, `update()` = fee accrual
     1  the oSQTH/WETH pool the Squeeth market trades with — the `positions` of `Demeter.Squeeth.State` (the container both markets share)
     2  the Squeeth market                               — the `vaults` of the same `Demeter.Squeeth.State`, operations `Demeter.Squeeth.step`
+    3  a GMX v1 market (GLP shares + accrued reward)    — `Demeter.GmxV1.State`, operations `Demeter.GmxV1.step`, `update()` = reward accrual
   Every market model carries "the" broker wallet as a field of its own state; here there is ONE wallet (`World.wallet`): it is put into a
   market's state before that market's transition runs and taken out of it afterwards.
 
@@ -22,6 +23,7 @@ import Demeter.Actuator.Valued
 import Demeter.Uni.Step
 import Demeter.Uni.Fee
 import Demeter.Squeeth.Views
+import Demeter.GmxV1
 namespace Demeter.Core
 
 structure Setup where
@@ -36,17 +38,30 @@ structure Setup where
   uniOp : String → Option Uni.Op          -- what a label issued on market 0 stands for
   sqOp : String → Option Squeeth.Op       -- … on markets 1 and 2
   sqQuote : String := "USD"               -- `SqueethMarket.quote_token` (the `Market` default, broker/market.py)
+  gmxEnv : Option Int → GmxV1.Env := fun _ => ⟨[], [], 0, 0, 0, 0, 0, 0⟩   -- market 3's data row, by source row
+  gmxOp : String → Option GmxV1.Op := fun _ => none                        -- what a label issued on market 3 stands for
+  gmxQuote : String := "USD"              -- `GmxMarket.quote_token` (the `Market` default)
 
 structure World where
   wallet : Wallet
   uni : Uni.State            -- its `wallet` field is a scratch copy, overwritten from `wallet` before every use
   sq : Squeeth.State         -- likewise
   env : Squeeth.Env          -- the current status of markets 1 and 2
+  gmx : GmxV1.State := ⟨0, 0, [], []⟩                      -- market 3 (its `wallet` field: scratch copy, as above)
+  genv : GmxV1.Env := ⟨[], [], 0, 0, 0, 0, 0, 0⟩           -- the current status of market 3
 
 /-- market 0 as its methods see it: with the broker's wallet -/
 def World.uniIn (w : World) : Uni.State := { w.uni with wallet := w.wallet }
 /-- markets 1 and 2 as their methods see them -/
 def World.sqIn (w : World) : Squeeth.State := { w.sq with wallet := w.wallet }
+
+/-- market 3 as its methods see it -/
+def World.gmxIn (w : World) : GmxV1.State := { w.gmx with wallet := w.wallet }
+
+/-- an operation on market 3 -/
+def gmxCall (S : Setup) (w : World) (op : GmxV1.Op) : World :=
+  let r := GmxV1.step S.cx w.genv w.gmxIn op
+  { w with wallet := r.2.wallet, gmx := r.2 }
 
 /-- an operation on market 0 -/
 def uniCall (S : Setup) (w : World) (tag : String) : World :=
@@ -63,6 +78,10 @@ def sqCall (S : Setup) (w : World) (op : Squeeth.Op) : World :=
 
 def opCall (S : Setup) (w : World) (m : Nat) (tag : String) : World :=
   if m = 0 then uniCall S w tag
+  else if m = 3 then
+    match S.gmxOp tag with
+    | none => w
+    | some op => gmxCall S w op
   else match S.sqOp tag with
     | none => w
     | some op => sqCall S w op
@@ -77,6 +96,10 @@ def setCall (S : Setup) (w : World) (ts : Int) (m : Nat) (isOpen : Bool) (src : 
     match src with
     | some _ => { w with env := { w.env with uniPrice := (S.sqEnv src).uniPrice, uniOpen := isOpen } }
     | none => { w with env := { w.env with uniOpen := isOpen } }
+  else if m = 3 then
+    match src with
+    | some _ => { w with genv := S.gmxEnv src }
+    | none => w
   else
     match src with
     | some _ => { w with env := { S.sqEnv src with uniPrice := w.env.uniPrice, uniOpen := w.env.uniOpen } }
@@ -86,6 +109,7 @@ def setCall (S : Setup) (w : World) (ts : Int) (m : Nat) (isOpen : Bool) (src : 
 def updCall (S : Setup) (w : World) (m : Nat) : World :=
   if m = 0 then { w with uni := (Uni.update S.K.cx S.pool w.uni).1 }       -- fee accrual (wallet untouched)
   else if m = 2 then sqCall S w .update                                      -- liquidation of unsafe vaults
+  else if m = 3 then gmxCall S w .update                                     -- reward accrual (wallet untouched)
   else w
 
 /-- what a call of the trace does to wallet and markets -/
@@ -104,7 +128,8 @@ def nvOfSq (r : Except Squeeth.Err Squeeth.Balance) : Rat := match r with | .ok 
 def marketsBalances (S : Setup) (w : World) : List MarketNV :=
   [⟨"uni", S.pool.quoteTok, nvOfUni (Uni.getMarketBalance S.K S.pool w.uniIn)⟩,
    ⟨"squeeth-pool", Gen.sqWethName, Squeeth.uniNetValue S.cx w.env w.sqIn⟩,
-   ⟨"squeeth", S.sqQuote, nvOfSq (Squeeth.marketBalance S.cx w.env w.sqIn)⟩]
+   ⟨"squeeth", S.sqQuote, nvOfSq (Squeeth.marketBalance S.cx w.env w.sqIn)⟩,
+   ⟨"gmx", S.gmxQuote, GmxV1.netValue S.cx w.genv w.gmxIn⟩]
 
 /-- the concrete interpretation -/
 def marketsValuation (S : Setup) : Valuation World :=
@@ -120,6 +145,8 @@ def marketsValuation (S : Setup) : Valuation World :=
 def callOk (S : Setup) (w : World) (m : Nat) (tag : String) : Option Bool :=
   if m = 0 then
     (S.uniOp tag).map fun op => match (Uni.step S.K S.pool S.minError w.uniIn op).1 with | .ok _ => true | .error _ => false
+  else if m = 3 then
+    (S.gmxOp tag).map fun op => match (GmxV1.step S.cx w.genv w.gmxIn op).1 with | .ok _ => true | .error _ => false
   else
     (S.sqOp tag).map fun op => (Squeeth.step S.cx w.env w.sqIn op).err.isNone
 
